@@ -65,6 +65,8 @@ pub fn exec(f: u32, a: &Args) -> Args {
             let h: Headers = pairs(a).into_iter().collect();
             match SessionRequest::try_from(h) {
                 Ok(req) => {
+                    // an admitted request must answer its accessors (they rely on the admission rule)
+                    let _ = (req.authority().len(), req.path().len(), req.origin().map(|x| x.len()), req.user_agent().map(|x| x.len()));
                     let mut out = vec![vec![1]];
                     out.extend(sorted(req.headers()));
                     out
@@ -221,6 +223,23 @@ pub fn generate(rng: &mut Rng, thorough: bool) -> Vec<Case> {
             args.push(b2a(b"https://o"));
         }
         cs.push(Case::new(523, args, "admission-matrix"));
+    }
+    // one pseudo-header missing, a regular field of similar meaning in its place: not a substitute
+    for (i, alikes) in [vec![("method", "CONNECT"), ("x-http-method-override", "CONNECT")], vec![("scheme", "https"), ("x-forwarded-proto", "https")],
+                        vec![("protocol", "webtransport"), ("upgrade", "webtransport")], vec![("host", "a"), ("authority", "a"), ("x-forwarded-host", "a"), ("Host", "a")],
+                        vec![("path", "/"), ("x-original-url", "/")]].iter().enumerate() {
+        for (k, v) in alikes {
+            let mut args = vec![];
+            for (j, g) in good.iter().enumerate() {
+                if j != i {
+                    args.push(b2a(g.0.as_bytes()));
+                    args.push(b2a(g.1.as_bytes()));
+                }
+            }
+            args.push(b2a(k.as_bytes()));
+            args.push(b2a(v.as_bytes()));
+            cs.push(Case::new(523, args, "admission-lookalike-field"));
+        }
     }
     for (kk, vv) in [(":method", "connect"), (":method", "CONNECT "), (":scheme", "HTTPS"), (":protocol", "WebTransport")] {
         let mut args = vec![];
